@@ -15,6 +15,7 @@ package signedexchange
 //@   props C08 C19
 //@   requires entriesFresh(encs) && entriesDistinct(encs)
 //@   ensures entriesFresh(result) && entriesDistinct(result) && len(result) >= len(encs)
+//@   ensures[one-entry-per-field] len(result) == len(encs) + len(headers)
 //@   ensures forall k int :: 0 <= k && k < len(encs) ==> result[k] == old(encs[k])
 //@   ensures forall k int :: len(encs) <= k && k < len(result) ==> fresh(result[k])
 //@   assigns elems(encs)
@@ -22,6 +23,7 @@ package signedexchange
 //@     invariant[fresh] entriesFresh(encs)
 //@     invariant[distinct] entriesDistinct(encs)
 //@     invariant len(encs) >= old(len(encs))
+//@     invariant[count] len(encs) == old(len(encs)) + itercount()
 //@     invariant[prefix] forall k int :: 0 <= k && k < old(len(encs)) ==> encs[k] == old(encs[k])
 //@     invariant[prefix-in-place] forall k int :: 0 <= k && k < old(len(encs)) ==> entry(encs)[k] == old(encs[k])
 //@     invariant forall k int :: old(len(encs)) <= k && k < len(encs) ==> fresh(encs[k])
